@@ -32,22 +32,22 @@ Theorem C04_rgb_delay_within_1ms : forall m q, (0 <= q)%Q -> (Qabs (q - inject_Z
 Proof. exact rnd_within_ms. Qed.
 Print Assumptions C04_rgb_delay_within_1ms.
 
-(* the expected refutation: rgb.fade(1, 0, 0, 100, steps=2) from black - step 1 is exactly 0.5:
-   the host rounds half-even (0), the device half away from zero (1) *)
-Theorem C04_rgb_fade_rounding_refuted : exists p s ops,
-  canon (drtr p drinit ops) <> canon (fst (hrrun p s ops)).
-Proof. exists (9, 10, 11)%Z, (black (9, 10, 11)%Z), w_ops. exact rgb_fade_half_differs. Qed.
-Print Assumptions C04_rgb_fade_rounding_refuted.
-
-(* ... the red pin goes to level 1 at t = 0 on the device, at t = 50 ms on the host *)
-Theorem C04_rgb_fade_rounding_witness :
-  canon (drtr (9, 10, 11)%Z drinit w_ops) = ([(0, 9, 1)], 50)%Z /\
-  canon (fst (hrrun (9, 10, 11)%Z (black (9, 10, 11)%Z) w_ops)) = ([(50, 9, 1)], 50)%Z.
+(* formerly C04_rgb_fade_rounding_refuted (F-C04-rgb-fade-half-rounding, repaired): rgb.fade(1, 0, 0, 100, steps=2) from
+   black - step 1 is exactly 0.5 (a tie): the device used to round it half away from zero (red = 1 at t = 0), the host
+   half-even (red = 1 only at t = 50 ms).  Both now round a half to the even neighbour: down (0.5 -> 0, 2.5 -> 2 i.e.
+   252.5 -> 252 downwards) and up (1.5 -> 2), rising and falling; C04_rgb below is the general statement *)
+Example C04_rgb_fade_half_witness :
+  canon (drtr (9, 10, 11)%Z drinit w_ops) = ([(50, 9, 1)], 50)%Z /\
+  canon (fst (hrrun (9, 10, 11)%Z (black (9, 10, 11)%Z) w_ops)) = ([(50, 9, 1)], 50)%Z /\
+  tie 2 0 1 1 = true /\ c_interp 2 0 1 1 = 0%Z /\ c_interp 2 0 3 1 = 2%Z /\ c_interp 2 3 0 1 = 2%Z /\
+  c_interp 4 255 249 3 = 250%Z /\
+  canon (drtr (9, 10, 11)%Z drinit w_ops_up) = canon (fst (hrrun (9, 10, 11)%Z (black (9, 10, 11)%Z) w_ops_up)) /\
+  canon (drtr (9, 10, 11)%Z drinit w_ops_up) = ([(0, 9, 2); (50, 9, 3)], 50)%Z.
 Proof. exact rgb_fade_half_values. Qed.
-Print Assumptions C04_rgb_fade_rounding_witness.
+Print Assumptions C04_rgb_fade_half_witness.
 
 (* for every history of set_color / on / off commands with int components 0..255 the firmware's analogWrite trace IS the
-   host's level trace, hence the same canonical signal, and no host call raises (a corollary of C04_rgb_partial below,
+   host's level trace, hence the same canonical signal, and no host call raises (a corollary of C04_rgb below,
    kept because its guard is simpler) *)
 Theorem C04_rgb_set_partial : forall p ops, forallb set_only ops = true ->
   canon (drtr p drinit ops) = canon (fst (hrrun p (black p) ops)) /\ snd (hrrun p (black p) ops) = true.
@@ -60,24 +60,38 @@ Example C04_rgb_set_guard_inhabited :
 Proof. vm_compute. split; reflexivity. Qed.
 Print Assumptions C04_rgb_set_guard_inhabited.
 
-(* C04_rgb_partial: device = host for ALL RGB commands (set_color, on, off, fade, blink) and all histories inside the guard
-   rgb_guard: int components 0..255; fade: duration >= 0 and whole, steps a positive int, and NO interpolation step lands
-   exactly on a half in any channel (tie_free3, evaluated on the colour the fade starts from - the refutation above shows this
-   conjunct is needed); blink: times a positive int, delay >= 0.  Then the firmware's per-pin level signal with whole-millisecond
+(* C04_rgb (formerly C04_rgb_partial, whose guard also excluded every fade with an interpolation step exactly on a half):
+   device = host for ALL RGB commands (set_color, on, off, fade, blink) and all histories with in-range arguments,
+   rgb_guard: int components 0..255; fade: duration >= 0 and whole, steps a positive int; blink: times a positive int,
+   delay >= 0 - nothing else (the colour a fade starts from plays no role any more).  Then the firmware's per-pin level signal with whole-millisecond
    time stamps equals the host's (each fade sleep q rounded as the device does, (unsigned long)(q + 0.5f); each blink sleep
    truncated; C04_rgb_delay_within_1ms bounds both by 1 ms), and no host call raises. *)
-Theorem C04_rgb_partial : forall p ops, rgb_guard (black p) ops = true ->
+Theorem C04_rgb : forall p ops, rgb_guard (black p) ops = true ->
   canon (drtr p drinit ops) = canon (fst (hrrun p (black p) ops)) /\ snd (hrrun p (black p) ops) = true.
 Proof. exact rgb_device_eq_host. Qed.
-Print Assumptions C04_rgb_partial.
+Print Assumptions C04_rgb.
 
-(* the rounding fact behind it: away from a tie the device's integer formula is the host's int(round(...)) *)
-Theorem C04_rgb_fade_value_partial : forall n s t i, (0 < n)%Z -> tie n s t i = false ->
+(* the guard is the argument ranges only: it does not depend on the state the history has reached *)
+Theorem C04_rgb_guard_is_in_range : forall s ops,
+  rgb_guard s ops = forallb (rgb_in_range (0, 0, 0)%Z) ops.
+Proof. exact rgb_guard_stateless. Qed.
+Print Assumptions C04_rgb_guard_is_in_range.
+
+(* the rounding fact behind it (formerly C04_rgb_fade_value_partial, with the hypothesis "not a tie"): for EVERY step,
+   halves included, the device's integer quotient/remainder formula is the host's int(round(...)); the one hypothesis
+   says the exact value is not negative, which holds for channels 0..255 (second statement) *)
+Theorem C04_rgb_fade_value : forall n s t i, (0 < n)%Z -> (0 <= s * n + (t - s) * i)%Z ->
   interp (inject_Z n) s t i = c_interp n s t i.
 Proof. exact c_interp_eq_interp. Qed.
-Print Assumptions C04_rgb_fade_value_partial.
+Print Assumptions C04_rgb_fade_value.
+
+Theorem C04_rgb_fade_value_channels : forall n s t i, (0 < n)%Z -> (1 <= i <= n)%Z ->
+  (0 <= s <= 255)%Z -> (0 <= t <= 255)%Z ->
+  interp (inject_Z n) s t i = c_interp n s t i.
+Proof. exact c_interp_eq_interp_channels. Qed.
+Print Assumptions C04_rgb_fade_value_channels.
 
 Example C04_rgb_guard_inhabited : rgb_guard (black (9, 10, 11)%Z) rgb_demo_ops = true /\
-  length (fst (canon (drtr (9, 10, 11)%Z drinit rgb_demo_ops))) = 45%nat.
+  length (fst (canon (drtr (9, 10, 11)%Z drinit rgb_demo_ops))) = 48%nat.
 Proof. exact rgb_demo_guard. Qed.
 Print Assumptions C04_rgb_guard_inhabited.
